@@ -67,7 +67,18 @@ fn core(prop: &str, tier: u8) -> &'static Vec<SProg> {
             let lk = alphabet_for("C07");
             v.extend(enumerate(2, 2, &*lk, &well_formed));
         }
-        "C05" => v.extend(enumerate(2, 3, &*al, &well_formed)),
+        "C05" => {
+            v.extend(enumerate(2, 3, &*al, &well_formed));
+            // three threads over the rwlock (readers queued behind writers, who is woken on release) with joins by main
+            let rw: Box<dyn Fn(usize) -> Vec<SOp>> = Box::new(|th| {
+                let mut a = vec![SOp::Read, SOp::Write, SOp::RwUnlock];
+                if th == 0 {
+                    a.extend([SOp::Join(1), SOp::Join(2)]);
+                }
+                a
+            });
+            v.extend(enumerate(3, 3, &*rw, &|l, th| well_formed(l, th) && (th == 0 || l.len() == 2)));
+        }
         "C07" => v.extend(enumerate(2, if tier == 0 { 3 } else { 4 }, &*al, &well_formed)),
         "C08" => v.extend(enumerate(2, 3, &*al, &well_formed)),
         "C09" => {
@@ -91,6 +102,13 @@ fn distinct_sends(l: &[SOp]) -> bool {
     l.iter().all(|o| if let SOp::Send(i) = o { seen.insert(*i) } else { true })
 }
 
+impl SProg {
+    fn with_rx(mut self, owner: u8) -> SProg {
+        self.rx_owner = owner;
+        self
+    }
+}
+
 fn sp(threads: Vec<Vec<SOp>>) -> SProg {
     SProg { threads, loom_arc: false, forget_rx: false, rx_owner: 0 }
 }
@@ -100,6 +118,22 @@ pub fn pinned(prop: &str) -> Vec<SProg> {
     let mut v = Vec::new();
     match prop {
         "C05" | "C08" => {
+            // condvar with waiters that are known to be waiting (each sets its flag under the mutex, main spins on the
+            // flags and then passes through the mutex): notify_one twice / notify_all must release both
+            let waiter = |flag: u8| vec![Lock(0), AStore(flag, 1), CvWait, Unlock(0)];
+            for notes in [vec![NotifyOne, NotifyOne], vec![NotifyAll], vec![NotifyOne, NotifyAll], vec![NotifyOne]] {
+                let mut main = vec![AwaitA(0, 1), AwaitA(1, 1), Lock(0), Unlock(0)];
+                main.extend(notes);
+                main.extend([Join(1), Join(2)]);
+                v.push(sp(vec![main, waiter(0), waiter(1)]));
+            }
+            // one waiter, notified while known to be waiting; and a notification that cannot be lost because the
+            // notifier holds the mutex
+            v.push(sp(vec![vec![AwaitA(0, 1), Lock(0), NotifyOne, Unlock(0), Join(1)], waiter(0)]));
+            // rwlock: two readers queued behind a writer, the first one woken depends on the second
+            v.push(sp(vec![vec![Read, Join(2), RwUnlock], vec![Write, RwUnlock], vec![Read, RwUnlock]]));
+            v.push(sp(vec![vec![Write, RwUnlock, Join(1), Join(2)], vec![Read, Recv, RwUnlock], vec![Read, Send(21), RwUnlock]]).with_rx(1));
+            v.push(sp(vec![vec![Write, RwUnlock], vec![Read, RwUnlock], vec![Read, RwUnlock], vec![Write, RwUnlock]]));
             if prop == "C08" {
                 v.push(sp(vec![vec![RLoad(0), SkipUnlessLast(1, 2), Park, CellR(0)], vec![Unpark(0), CellW(0), Unpark(0), RStore(0, 1)]]));
                 v.push(sp(vec![vec![RLoad(0), SkipUnlessLast(1, 4), RLoad(1), SkipUnlessLast(1, 2), Park, CellR(0)], vec![CellW(0), Unpark(0), RStore(0, 1)], vec![Unpark(0), RStore(1, 1)]]));
